@@ -24,6 +24,7 @@ SI = "<store::fs::StoreInstance<'a> as ranger::Store<sync::SignedEntry>>::"
 
 EXPLANATION += ' (R5, round 10) RecordsRange::next evaluated call after call over scripted rows: every row of the scan in scan order, markers included; a failing row is an error.'
 EXPLANATION += ' (R6, round 12) the range count (get_range_len, default and every override) evaluated over scripted scans: the number of rows the scan of the range given yields, whatever its end points; a failing scan or row is an error.'
+EXPLANATION += " (R7, round 13) = C02.R15: a database-backed store that overrides a default method of the reconciliation trait is evaluated on the default's table."
 
 
 def _fields(body, op, **kw):
@@ -626,6 +627,13 @@ def range_len(ctx, rule):
             ok = ok and scans == ["range"]
             ctx.check(ok, rule, path, "range-count[%s]" % label, "returns %s after scanning %s; spec: %s, from one scan of the range given" % (got, scans, want), b.sp)
 
+def r7(ctx):
+    """"prefix lookups and prefix removals return exactly what the ordered-map definitions prescribe" - the ordered map's put is the
+    trait's default: an override in the database-backed store is evaluated on the same table (= C02.R15)"""
+    from . import C02
+    C02.overrides(ctx, "C08.R7")
+    ctx.floor("C08.R7", 1)
+
 def run(ctx):
     ctx.run_rule("C08.R1", r1)
     ctx.run_rule("C08.R2", r2)
@@ -633,3 +641,4 @@ def run(ctx):
     ctx.run_rule("C08.R4", r4)
     ctx.run_rule("C08.R5", r5)
     ctx.run_rule("C08.R6", r6)
+    ctx.run_rule("C08.R7", r7)
